@@ -201,6 +201,9 @@ def public_attrs(msg):
 DEFAULTS = {"match": "exact", "invoke": "single", "reason_goodbye": None}
 
 
+STRICT_LISTS = ("exclude", "exclude_authid", "exclude_authrole", "eligible", "eligible_authid", "eligible_authrole")
+
+
 def norm(v, field=None):
     """normalisation stated in the design: tuple==list, absent==empty for args/kwargs and
     generally absent == falsy default (None/False/""/[]/{}), role objects by their feature dict"""
@@ -208,7 +211,8 @@ def norm(v, field=None):
         return ("role", v.ROLE, tuple(sorted((k, x) for k, x in v.__dict__.items() if x is not None and not k.startswith("_"))))
     if isinstance(v, (list, tuple)):
         v = [norm(x) for x in v]
-        return v if (v or field is None) else None
+        # an explicitly empty black-/whitelist ("nobody") is not the same as an absent one
+        return v if (v or field is None or field in STRICT_LISTS) else None
     if isinstance(v, dict):
         v = {k: norm(x) for k, x in v.items()}
         return v if (v or field is None) else None
